@@ -690,11 +690,31 @@ PASS_THROUGH = [
 
 
 def tail2(path):
-    """last two segments of a generics-stripped path; `<X as a::Trait>::m` -> `Trait::m`"""
+    """last two segments of a path; `<X as a::Trait<..>>::m` -> `Trait::m`"""
+    if path.startswith("<"):
+        depth = 0
+        for i, ch in enumerate(path):
+            if ch == "<":
+                depth += 1
+            elif ch == ">":
+                depth -= 1
+                if depth == 0:
+                    inner, rest = path[1:i], path[i + 1:]
+                    if " as " in inner and rest.startswith("::"):
+                        # split at the top-level " as "
+                        d2 = 0
+                        for j in range(len(inner)):
+                            if inner[j] == "<":
+                                d2 += 1
+                            elif inner[j] == ">":
+                                d2 -= 1
+                            elif d2 == 0 and inner.startswith(" as ", j):
+                                tr = inner[j + 4:]
+                                tr = tr.split("<")[0].split("::")[-1]
+                                meth = strip_generics(rest[2:]).split("::")[-1]
+                                return tr + "::" + meth
+                    break
     sp = strip_generics(path)
-    m = re.match(r"^<(.+) as ([^>]+?)>::(\w+)$", sp)
-    if m:
-        return m.group(2).split("<")[0].split("::")[-1] + "::" + m.group(3)
     parts = sp.split("::")
     return "::".join(parts[-2:])
 
@@ -719,8 +739,9 @@ class Origin:
     ('agg', block, idx) ('unknown', why)"""
 
 
-def origins(body, op, _seen=None, depth=0):
-    """set of origin tuples for an operand (flow-insensitive over-approximation)"""
+def origins(body, op, _seen=None, depth=0, extra=()):
+    """set of origin tuples for an operand (flow-insensitive over-approximation); `extra` = projection keys still to
+    be applied to the value (pushed down through copies, borrows, pass-through calls and freshly built aggregates)"""
     if "const" in op:
         c = op["const"]
         if "fn" in c:
@@ -731,7 +752,7 @@ def origins(body, op, _seen=None, depth=0):
     p = op_place(op)
     if p is None:
         return {("unknown", "operand")}
-    return place_origins(body, p, _seen, depth)
+    return place_origins(body, p, _seen, depth, extra)
 
 
 def _proj_key(projs):
@@ -750,13 +771,13 @@ def _proj_key(projs):
     return tuple(out)
 
 
-def place_origins(body, p, _seen=None, depth=0):
+def place_origins(body, p, _seen=None, depth=0, extra=()):
     if _seen is None:
         _seen = set()
     l = p["l"]
-    proj = _proj_key(p["p"])
+    proj = _proj_key(p["p"]) + tuple(extra)
     key = (l, proj)
-    if key in _seen or depth > 40:
+    if key in _seen or depth > 60:
         return set()
     _seen = _seen | {key}
     out = set()
@@ -769,25 +790,27 @@ def place_origins(body, p, _seen=None, depth=0):
         elif d[0] == "stmt":
             rv = d[3]
             if "use" in rv:
-                for o in origins(body, rv["use"], _seen, depth + 1):
-                    out.add(_extend(o, proj))
+                out |= origins(body, rv["use"], _seen, depth + 1, proj)
             elif "ref" in rv or "rawptr" in rv:
                 q = rv.get("ref") or rv.get("rawptr")
-                for o in place_origins(body, q, _seen, depth + 1):
-                    out.add(_extend(o, proj))
+                out |= place_origins(body, q, _seen, depth + 1, proj)
             elif "cast" in rv:
-                for o in origins(body, rv["cast"]["op"], _seen, depth + 1):
-                    out.add(_extend(o, proj))
+                out |= origins(body, rv["cast"]["op"], _seen, depth + 1, proj)
             elif "agg" in rv:
                 a = rv["agg"]
+                pj = proj
+                if pj and pj[0].startswith("@") and a["kind"] == "adt":
+                    if a.get("vname") == pj[0][1:]:
+                        pj = pj[1:]          # downcast to the variant that was built
+                    else:
+                        continue             # downcast to another variant: this definition cannot be the source
                 # projection into a freshly built aggregate: follow the field operand if we can
-                if proj and a["kind"] in ("tuple", "adt", "closure"):
-                    idx = _field_index(a, proj[0])
+                if pj and a["kind"] in ("tuple", "adt", "closure"):
+                    idx = _field_index(a, pj[0])
                     if idx is not None and idx < len(a["ops"]):
-                        for o in origins(body, a["ops"][idx], _seen, depth + 1):
-                            out.add(_extend(o, proj[1:]))
+                        out |= origins(body, a["ops"][idx], _seen, depth + 1, pj[1:])
                         continue
-                out.add(("agg", d[1], d[2]) + proj)
+                out.add(("agg", d[1], d[2]) + pj)
             elif "discr" in rv:
                 out.add(("discr",) + tuple(sorted(map(str, place_origins(body, rv["discr"], _seen, depth + 1)))))
             elif "bin" in rv:
@@ -801,9 +824,11 @@ def place_origins(body, p, _seen=None, depth=0):
             if fr is not None:
                 idx = pass_through_index(fr)
                 if idx is not None and idx < len(t["args"]):
-                    for o in origins(body, t["args"][idx], _seen, depth + 1):
-                        out.add(_extend(o, proj))
+                    out |= origins(body, t["args"][idx], _seen, depth + 1, proj)
                     passed = True
+            if not passed and fr is not None and proj and proj[0] in ("@Some", "@Ok", "@Continue") and tail2(fr["path"]) == "FromResidual::from_residual":
+                # `?` on the failure path builds None / Err: that definition cannot be the source of a Some / Ok payload
+                passed = True
             if not passed:
                 out.add(("call", d[1]) + proj)
         elif d[0] in ("partial", "partialcall"):
